@@ -54,7 +54,8 @@ GOOD = {
     "G0": [],
 }
 BAD = ["missing", "zero", "garbage", "garbage.gz", "torn", "boundary", "torn.gz", "damaged.gz", "damaged-head.gz", "garbage.lz4", "garbage.zst", "garbage.bz2"]
-SELECTORS = [None, "True", "r.n > 3", "r.s == 'a2' or r.s == 'a21' or r.s == 'a30'", "r.n == -1", "r.w == 'b3' or name(r) == 't/n'"]
+SELECTORS = [None, "True", "r.n > 3", "r.s == 'a2' or r.s == 'a21' or r.s == 'a30'", "r.n == -1", "r.w == 'b3' or name(r) == 't/n'",
+             "has_field(r, 's') and any(c == 'a' for c in r.s)", "any(c in '24' for c in str(r.n)) and any(c != 'q' for c in name(r))"]
 _SRC = {}
 
 
